@@ -135,3 +135,8 @@ Extraction "model_pvm.ml" boundaries_clean failing_stmt scoped_all pvm_blame_run
 (* C05: the parser model (parse/Parse.v) and the executable side conditions of the print/parse round trip *)
 From Ucg Require Import parse.Parse parse.Parse_Toks parse.Parse_Lemmas parse.Parse_Lex.
 Extraction "model_parse.ml" parse_src Parse.parse parse_expr Lex.lex Print.pp_stmts ptoks pnorm prog_ok raw_tpl_prog frag_prog strip_tok lex_ok_prog pp_stmts_raw.
+
+(* C03: the TOML output model (converter + toml-rs 0.5.11 pretty serializer), the independent reader and the specification *)
+From Ucg Require Import data.Toml.
+Extraction "model_toml.ml" to_toml toml_emit toml_output ser_root toml_parse spec_data doc_canon doc_eqb toml_rt_ok
+  emit_value_str escape_key float_text parse_string parse_key classify_tok dec_of_Z.
